@@ -157,7 +157,7 @@ def gen(seed, tier):
     scopes = [(1, 3), (2, 2)] if quick else [(1, 4), (2, 2), (2, 3), (3, 2)]
     # thorough: the two big families are walked on a sub-lattice whose offset is the seed, so that
     # runs with different seeds together cover them exhaustively
-    stride = {(2, 3): 3, (3, 2): 2}
+    stride = {(2, 3): 4, (3, 2): 3}
     for D, n in scopes:
         trees = all_trees(D, n)
         step = stride.get((D, n), 1)
